@@ -506,3 +506,53 @@ def mc_run(spec, cfg_text, workdir, tag, workers=8, timeout=3000, xmx="6g", want
     violated = re.findall(r"(?:Invariant|Action property|Temporal property|property) (\w+) is violated", out)
     return dict(spec=spec, ok=ok, states=states, distinct=distinct, depth=int(depth.group(1)) if depth else 0, progs=progs, violated=violated,
                 wall=round(time.time() - t0, 1), out_tail=tail)
+
+
+def sweep_campaign(name, ranges, workdir, jvms=8):
+    """C06: every sector count of the given ranges for default options through the boot-sector hook (`fxh fmtsweep`), run-length
+    compressed into runs of equal layout; TLC (TraceFormat, fmtrun events) judges both ends of every run"""
+    os.makedirs(workdir, exist_ok=True)
+    binp = build("ref")
+    res = CampaignResult()
+    files = [(k, lo, hi, os.path.join(workdir, "%s-%03d.ndjson" % (name, k))) for k, (lo, hi) in enumerate(ranges)]
+    t0 = time.time()
+
+    def run(f):
+        p = subprocess.run([binp, "fmtsweep", str(f[1]), str(f[2]), f[3]], stdout=subprocess.PIPE, stderr=subprocess.PIPE, text=True, timeout=7200)
+        if p.returncode != 0:
+            raise ToolError("fmtsweep failed: " + p.stderr[-500:])
+        return json.loads(p.stdout.strip().splitlines()[-1])
+
+    with ThreadPoolExecutor(max_workers=max(1, NCPU - 2)) as ex:
+        infos = list(ex.map(run, files))
+    res.wall_harness = time.time() - t0
+    res.programs = sum(i["programs"] for i in infos)      # sector counts formatted
+    res.events = sum(i["events"] for i in infos)          # runs
+    t0 = time.time()
+
+    def one(f):
+        return run_tlc(os.path.join(SPEC, "TraceFormat.tla"), os.path.join(SPEC, "TraceFormat.cfg"), {"TRACE": f[3]}, workdir, "%s-%03d" % (name, f[0]), xmx="4g")
+
+    with ThreadPoolExecutor(max_workers=jvms) as ex:
+        outs = list(ex.map(one, files))
+    res.wall_tlc = time.time() - t0
+    for f, o in zip(files, outs):
+        res.bytes += os.path.getsize(f[3])
+        res.tlc_states += o["states"]
+        res.tlc_distinct += o["distinct"]
+        if not o["ok"]:
+            res.tool_errors.append("TLC did not accept/finish sweep shard %s" % f[0])
+        for kind, fl in o["lines"]:
+            if kind == "VIOL":
+                res.viol.append(tuple(fl))
+                res.progs[str(fl[1])] = {"id": fl[1], "sweep": "default options, sector count range starting at the number in the id", "range": [f[1], f[2]]}
+        if f[0] == 0:
+            with open(f[3]) as fh:
+                for n, ln in enumerate(fh):
+                    if n in (0, 2, 50):
+                        ev = json.loads(ln)
+                        res.samples.append({"op": ev["op"], "lo": ev["lo"], "hi": ev["hi"], "r": ev["r"], "spc": ev.get("blo", {}).get("spc"), "spf16": ev.get("blo", {}).get("spf16")})
+        os.remove(f[3])
+    res.shapes.add(("fmtrun", "ok", ""))
+    res.shapes.add(("fmtrun", "err", "InvalidInput"))
+    return res
